@@ -899,7 +899,11 @@ func c45MutateText(rt *rapid.T, text []byte) ([]byte, string) {
 func c45Generate(rt *rapid.T, p *keyPool, items []c45Item) (target int, data, aux []byte, desc string) {
 	if rapid.IntRange(0, 5).Draw(rt, "built") == 0 {
 		// signed artefacts built field by field with correct hash tags (every key algorithm x hash)
-		switch rapid.IntRange(0, 3).Draw(rt, "builtring") {
+		switch rapid.IntRange(0, 4).Draw(rt, "builtring") {
+		case 4:
+			ins := lengthExtremeInputs(p)
+			in := ins[rapid.IntRange(0, len(ins)-1).Draw(rt, "lenin")]
+			target, data, aux, desc = in.target, in.data, in.aux, "built-length:"+in.desc
 		case 0:
 			target, data, desc = c45BuiltKeyRing(rt, p)
 		case 1:
@@ -1145,6 +1149,7 @@ func TestC45(t *testing.T) {
 		}
 	}
 	c45Witnesses(t, c, p)
+	c45LengthExtremes(t, c, p)
 	// bounded-exhaustive: session key blocks of 0..8 bytes for every encryption key in the ring
 	{
 		n := 0
@@ -1339,7 +1344,9 @@ func TestC45(t *testing.T) {
 		}
 		kinds := descKinds(desc)
 		base := strings.SplitN(desc, "|", 2)[0]
-		if strings.HasPrefix(base, "built-multikey") {
+		if strings.HasPrefix(base, "built-length") {
+			kinds = "built-length"
+		} else if strings.HasPrefix(base, "built-multikey") {
 			kinds = "built-multikey"
 		} else if strings.HasPrefix(base, "built-ring") {
 			kinds = "built-ring"
